@@ -222,4 +222,97 @@ theorem denseEntry_eq (rows : Fin n → SymRow ℝ n) (h : WF rows)
       rw [key _ _ (hnd j), filter_eq_nil_of_wf h (le_of_lt hlt')]
       simp
 
+
+/-! ### real-number reading of the joint loops of `mj_energyPos` / `mj_springdamper` -/
+
+theorem noSpring_real (k p0 p1 : ℝ) : noSpring k p0 p1 = true ↔ k = 0 ∧ p0 = 0 ∧ p1 = 0 := by
+  simp [noSpring, polyIsZero, zero_real]
+
+theorem polyPotential_real (k p0 p1 x : ℝ) :
+    Gen.c08_polyPotential k p0 p1 x = 1 / 2 * k * x ^ 2 + p0 / 3 * x ^ 3 + p1 / 4 * x ^ 4 := by
+  simp only [Gen.c08_polyPotential, real_ofInt, real_ofSci]
+  show (OfScientific.ofScientific 5 true 1 : ℝ) * k * (x * x) + p0 / ((3 : ℤ) : ℝ) * (x * x * x) +
+    p1 / ((4 : ℤ) : ℝ) * (x * x * x * x) = _
+  have h5 : (OfScientific.ofScientific 5 true 1 : ℝ) = 1 / 2 := by norm_num
+  rw [h5]
+  push_cast
+  ring
+
+theorem polyForce_real (k p0 p1 x : ℝ) : Gen.c08_polyForce k p0 p1 x = k + p0 * x + p1 * x ^ 2 := by
+  simp only [Gen.c08_polyForce, real_ofInt]
+  show k + p0 * (((1 : ℤ) : ℝ) * x) + p1 * (((1 : ℤ) : ℝ) * x * x) = _
+  push_cast
+  ring
+
+/-- parameters of a slide / hinge joint spring -/
+structure ScalarSpring where
+  k : ℝ
+  p0 : ℝ
+  p1 : ℝ
+  qspring : ℝ
+
+/-- joint `j` as both engine loops see it: it owns dof `j`, displacement `q j - qspring` -/
+def scalarJoint (P : Fin n → ScalarSpring) (q : Fin n → ℝ) (j : Fin n) : JointSpring ℝ :=
+  ⟨(P j).k, (P j).p0, (P j).p1, j.val, [Disp.scalar (q j) (P j).qspring]⟩
+
+/-- contribution of joint `j` to the potential, WITHOUT the skip test -/
+noncomputable def potTerm (P : Fin n → ScalarSpring) (q : Fin n → ℝ) (j : Fin n) : ℝ :=
+  Gen.c08_polyPotential (P j).k (P j).p0 (P j).p1 (q j - (P j).qspring)
+
+/-- force on dof `j`, WITHOUT the skip test -/
+noncomputable def forceTerm (P : Fin n → ScalarSpring) (q : Fin n → ℝ) (j : Fin n) : ℝ :=
+  -(q j - (P j).qspring) * Gen.c08_polyForce (P j).k (P j).p0 (P j).p1 (q j - (P j).qspring)
+
+/-- the skip test of `mj_energyPos` only drops terms that are zero -/
+theorem jointPotential_scalar (P : Fin n → ScalarSpring) (q : Fin n → ℝ) (j : Fin n) (e : ℝ) :
+    jointPotential e (scalarJoint P q j) = e + potTerm P q j := by
+  unfold jointPotential scalarJoint potTerm
+  by_cases h : noSpring (P j).k (P j).p0 (P j).p1 = true
+  · rw [if_pos h]
+    obtain ⟨hk, h0, h1⟩ := (noSpring_real _ _ _).mp h
+    rw [polyPotential_real, hk, h0, h1]
+    ring
+  · simp only [h, List.foldl_cons, List.foldl_nil, Disp.x]
+    rfl
+
+theorem foldl_jointPotential (P : Fin n → ScalarSpring) (q : Fin n → ℝ) (l : List (Fin n)) (e : ℝ) :
+    (l.map (scalarJoint P q)).foldl jointPotential e = e + (l.map (potTerm P q)).sum := by
+  induction l generalizing e with
+  | nil => simp
+  | cons a l ih => simp only [List.map_cons, List.foldl_cons, List.sum_cons, ih, jointPotential_scalar]; ring
+
+/-- the skip test of `mj_springdamper` only drops forces that are zero: one joint -/
+theorem jointForce_scalar (P : Fin n → ScalarSpring) (q : Fin n → ℝ) (i : Fin n) (f : ℕ → ℝ) (m : ℕ) :
+    jointForce f (scalarJoint P q i) m =
+      if noSpring (P i).k (P i).p0 (P i).p1 = true then f m else if m = i.val then forceTerm P q i else f m := by
+  unfold jointForce scalarJoint
+  by_cases h : noSpring (P i).k (P i).p0 (P i).p1 = true
+  · simp only [h, if_true]
+  · simp only [h, dispForce, forceTerm]
+    rfl
+
+theorem foldl_jointForce (P : Fin n → ScalarSpring) (q : Fin n → ℝ) (l : List (Fin n)) (hl : l.Nodup)
+    (f : ℕ → ℝ) (j : Fin n) :
+    (l.map (scalarJoint P q)).foldl jointForce f j.val =
+      if j ∈ l ∧ ¬ noSpring (P j).k (P j).p0 (P j).p1 = true then forceTerm P q j else f j.val := by
+  induction l generalizing f with
+  | nil => simp
+  | cons a l ih =>
+    have hnd := List.nodup_cons.mp hl
+    simp only [List.map_cons, List.foldl_cons]
+    rw [ih hnd.2, jointForce_scalar]
+    by_cases hja : j = a
+    · subst hja
+      have : j ∉ l := hnd.1
+      by_cases hs : noSpring (P j).k (P j).p0 (P j).p1 = true <;> simp [this, hs]
+    · have hv : ¬ j.val = a.val := fun e => hja (Fin.ext e)
+      by_cases hm : j ∈ l <;> by_cases hs : noSpring (P j).k (P j).p0 (P j).p1 = true <;>
+        by_cases hsa : noSpring (P a).k (P a).p0 (P a).p1 = true <;> simp [hm, hs, hsa, hja, hv]
+
+/-- a skipped joint has zero force anyway -/
+theorem forceTerm_of_noSpring (P : Fin n → ScalarSpring) (q : Fin n → ℝ) (j : Fin n)
+    (h : noSpring (P j).k (P j).p0 (P j).p1 = true) : forceTerm P q j = 0 := by
+  obtain ⟨hk, h0, h1⟩ := (noSpring_real _ _ _).mp h
+  simp [forceTerm, polyForce_real, hk, h0, h1]
+
 end MjProof.Energy
